@@ -63,6 +63,26 @@ Fixpoint classes_contiguous (fs : list minput) : bool :=
                negb (existsb (fun b => same_class (mi_v a) (mi_v b)) rest)) && classes_contiguous l
   end.
 
+(* the property itself on the observed outputs, for the default criteria on a single class:
+   consecutive outputs are separated by at least one base that no output covers *)
+Definition obs_extent (fs : list minput) (x : oobs) : option (Z * Z) :=
+  match x with
+  | ObsSingle i => match find (fun f => str_eqb (mi_id f) i) fs with Some f => Some (m_start (mi_v f), m_end (mi_v f)) | None => None end
+  | ObsMerged _ _ _ _ s e _ _ _ => Some (s, e)
+  end.
+Fixpoint obs_separated (fs : list minput) (l : list oobs) : bool :=
+  match l with
+  | a :: ((b :: _) as l') =>
+      match obs_extent fs a, obs_extent fs b with
+      | Some (_, e1), Some (s2, _) => (e1 + 1 <? s2) && obs_separated fs l'
+      | _, _ => false
+      end
+  | _ => true
+  end.
+Definition one_class (fs : list minput) : bool :=
+  match fs with [] => true | f :: l => forallb (fun x => same_class (mi_v f) (mi_v x)) l end.
+Definition is_default (cs : crits) : bool := match cs with [CSeqid; COvEnd; CStrand; CFtype] => true | _ => false end.
+
 Definition verdict (c : case) : Z :=
   match c with
   | CMerge cs pre fs a0 first second =>
@@ -72,15 +92,17 @@ Definition verdict (c : case) : Z :=
         let '(m1, a1) := merge cs fs a0 in
         let '(m2, _) := merge cs fs a1 in
         if outs_eqb m1 first && outs_eqb m2 second
-           && match first with Ok l => partition_ok fs l | _ => false end then V_OK else V_BAD
+           && match first with
+              | Ok l => partition_ok fs l && (if is_default cs && one_class fs then obs_separated fs l else true)
+              | _ => false
+              end then V_OK else V_BAD
       else V_OUT
   | CBp cs kids plain merged =>
       if forallb input_ok kids && start_sorted kids then
         let tie := result_eqb Z.eqb (Ok (children_bp false cs kids)) plain && result_eqb Z.eqb (Ok (children_bp true cs kids)) merged in
         let sum_ok := result_eqb Z.eqb plain (Ok (fold_right Z.add 0 (map (fun k => m_end (mi_v k) - m_start (mi_v k) + 1) kids))) in
         let union_ok := result_eqb Z.eqb merged (Ok (union_size_by_class kids)) in
-        let is_default := match cs with [CSeqid; COvEnd; CStrand; CFtype] => true | _ => false end in
-        if negb is_default then (if tie && sum_ok then V_OK else V_BAD)     (* the union claim is about the default criteria *)
+        if negb (is_default cs) then (if tie && sum_ok then V_OK else V_BAD)     (* the union claim is about the default criteria *)
         else if classes_contiguous kids then (if tie && sum_ok && union_ok then V_OK else V_BAD)
         else (* F19: start-ordered but class-interleaved children: the single pass does not join across classes *)
              (if union_ok && sum_ok then V_FIXED else if tie && sum_ok then V_KNOWN 19 else V_BAD)
